@@ -31,9 +31,10 @@ CLAIMS = {
          "pair is in closed form (running sums of size+gap); completes without error iff the records add up to both extents; otherwise correct "
          "pairs followed by exactly one final error. Tied to the code by running the model and both step-through iterators on generated "
          "sections (adding up, off by k, overflowing) and by an independent Python oracle of the statement.", "DESIGN.md 5 (C04), 4.2 (L2)"),
- "C05": ("Two theorems (Props/C05.v): for every stream of line reads and every drain budget above lines+1, the items up to and including the "
+ "C05": ("Three theorems (Props/C05.v): for every stream of line reads and every drain budget above lines+1, the items up to and including the "
          "first error equal the line grammar spec_sections (a recursive function over classified lines carrying the error kinds, 1-based blank "
-         "line number and offending text), and such a drain exists without panic. Tied to the code by draining sections() on generated and "
+         "line number and offending text), such a drain exists without panic, and every section yielded anywhere in the full drain (also after "
+         "errors) is a run of consecutive input lines (C05_sections_are_runs). Tied to the code by draining sections() on generated and "
          "(thorough) exhaustively enumerated line strings, compared with the model and with a Python grammar oracle.", "DESIGN.md 5 (C05), 4.2 (L6)"),
  "C06": ("Five theorems (Props/C06.v) over a model in which every Rust panic site is an explicit Panic branch: the section iterator never "
          "panics from any reachable state (also after errors), building from any stream of line reads returns a machine or an error, lifting "
@@ -57,9 +58,10 @@ CLAIMS = {
  "C10": ("Three theorems (Props/C10.v): the role-exchanged file aligns qb to rb exactly as often as the file aligns rb to qb (all strand "
          "combinations), it is well formed when the file is, and the two machines return the mirrored pairings through any intervals containing "
          "the bases. Tied to the code by building each generated file with its twin and lifting every expected pair back.", "DESIGN.md 5 (C10)"),
- "C11": ("Three theorems (Props/C11.v): results over a file are the multiset union of results over any partition of its chains; permuting the "
-         "chains preserves all pairings; the pairs of one answer are sorted by forward reference start. Determinism is by the model being a "
-         "function and is exercised on the code by rebuilding in-process and re-running every case in other processes (fresh hash seeds) with "
+ "C11": ("Five theorems (Props/C11.v): results over a file are the multiset union of results over any partition of its chains; permuting the "
+         "chains preserves all pairings; the pairs of one answer are sorted by forward reference start; the order in which the per-contig "
+         "vectors reach the final map (hash iteration order) cannot change any answer (C11_order_free, keys distinct). Determinism is "
+         "exercised on the code by rebuilding in-process and re-running every case in other processes (fresh hash seeds) with "
          "verbatim comparison.", "DESIGN.md 5 (C11)"),
  "C12": ("Three theorems (Props/C12.v): for every chunk/interrupt schedule without a hard failure the stream of line reads equals that of the "
          "flat bytes (std read_until transcribed); a raw read reports exactly the bytes consumed and returns the text without LF / CRLF; a blank "
